@@ -157,6 +157,12 @@ func runCaseMore(kind string, spec json.RawMessage) vx.Out {
 	if o, ok := runCaseC10(kind, spec); ok {
 		return o
 	}
+	if o, ok := runCaseC11(kind, spec); ok {
+		return o
+	}
+	if o, ok := runCaseC07(kind, spec); ok {
+		return o
+	}
 	switch kind {
 	case "genwait":
 		var a struct {
